@@ -67,13 +67,13 @@ Lemma oracle_from_run c : forall s,
 Proof.
   induction c as [|o c IH]; intro s; [reflexivity|].
   cbn [run_from oracle_from]. unfold obs.
-  destruct o as [|k sub seq|k sub seq|k].
+  destruct o as [|k sub seq data|k sub seq|k|kind|sub|sub|sub|sub].
   - rewrite dec_enc. rewrite <- (app_nil_r (pending s)) at 2. rewrite remove_all_self.
     apply (IH (step s Start)).
   - rewrite dec_enc. cbn [step]. destruct (inflight s) as [|a l] eqn:E.
     + rewrite ms_eqb_refl. cbn [andb]. specialize (IH s). rewrite E in IH. exact IH.
     + cbn [pending]. rewrite ms_eqb_refl. cbn [andb].
-      specialize (IH (step s (RespOk k sub seq))). cbn [step] in IH. rewrite E in IH. exact IH.
+      specialize (IH (step s (RespOk k sub seq data))). cbn [step] in IH. rewrite E in IH. exact IH.
   - rewrite dec_enc. cbn [step]. destruct (inflight s) as [|a l] eqn:E.
     + rewrite ms_eqb_refl. cbn [andb]. specialize (IH s). rewrite E in IH. exact IH.
     + cbn [pending]. rewrite ms_eqb_refl. cbn [andb].
@@ -82,6 +82,11 @@ Proof.
     + rewrite ms_eqb_refl. cbn [andb]. specialize (IH s). rewrite E in IH. exact IH.
     + cbn [pending]. rewrite ms_eqb_refl. cbn [andb].
       specialize (IH (step s (RespErr k))). cbn [step] in IH. rewrite E in IH. exact IH.
+  - rewrite dec_enc. cbn [step]. rewrite ms_eqb_refl. cbn [andb]. apply IH.
+  - rewrite dec_enc. cbn [step]. rewrite ms_eqb_refl. cbn [andb]. apply IH.
+  - rewrite dec_enc. cbn [step]. rewrite ms_eqb_refl. cbn [andb]. apply IH.
+  - rewrite dec_enc. cbn [step]. rewrite ms_eqb_refl. cbn [andb]. apply IH.
+  - rewrite dec_enc. cbn [step]. rewrite ms_eqb_refl. cbn [andb]. apply IH.
 Qed.
 
 Theorem oracle_holds c : oracle c (run c) = true.
@@ -116,7 +121,7 @@ Ltac count_tac z :=
 
 Lemma step_inv s o : Inv s -> Inv (step s o).
 Proof.
-  unfold Inv. intro H. destruct o as [|k sub seq|k sub seq|k]; cbn [step].
+  unfold Inv. intro H. destruct o as [|k sub seq data|k sub seq|k|kind|sub|sub|sub|sub]; cbn [step]; try exact H.
   - cbn [sent_ok inflight pending received].
     apply (proj2 (Permutation_count_occ adec _ _)). intro z.
     pose proof (proj1 (Permutation_count_occ adec _ _) H z) as Hz.
@@ -178,6 +183,25 @@ Proof.
 Qed.
 
 Example inv_nontrivial :
-  let s := fold_left step [Start; RespOk 0 1 10; Start; Start; RespErr 0; RespOk 0 1 11; Start; RespOk 5 2 7] init in
+  let s := fold_left step [Start; RespOk 0 1 10 0; Start; SubDel 1; Start; RespErr 0; StartDown 0; RespOk 0 1 11 1; Start; RespOk 5 2 7 2] init in
   received s = [(1, 10); (1, 11); (2, 7)] /\ sent_ok s = [[]; []; [(1, 10); (1, 11)]] /\ pending s = [(2, 7)].
 Proof. vm_compute. repeat split. Qed.
+
+
+(* the acknowledgements of a request that failed are sent again with the very next request,
+   together with everything that was waiting, and nothing is left waiting behind it *)
+Theorem failed_resent s k : inflight s <> [] ->
+  let i := pick k (length (inflight s)) in
+  let s' := step (step s (RespErr k)) Start in
+  inflight s' = remove_nth i (inflight s) ++ [pending s ++ nth i (inflight s) []] /\ pending s' = [].
+Proof.
+  intros Hne. cbv zeta. cbn [step]. destruct (inflight s) as [|a l] eqn:E; [congruence|].
+  cbn [inflight pending]. split; reflexivity.
+Qed.
+
+(* a publish call on a transport that is down, and every subscription change, leave the
+   bookkeeping exactly as it was *)
+Theorem down_and_subscription_changes_are_neutral s o :
+  match o with StartDown _ | SubAdd _ | SubDel _ | SubMod _ | SubPub _ => True | _ => False end ->
+  step s o = s.
+Proof. destruct o; cbn; intros H; try contradiction; reflexivity. Qed.
